@@ -329,6 +329,41 @@ func c05(c *Ctx) {
 		}
 		os.RemoveAll(d)
 	}
-	// a compiled binary that cannot be started: gocmd wrapper is not needed — remove the execute bit of the cached binary
+	// (5) a compile failure must surface even when an earlier successful build left a binary at the output path:
+	// the magefile imports a plain package; after a good run that package gets a type error (the magefile hash, hence the
+	// cache name, is unchanged)
+	{
+		d := filepath.Join(c.Tmp, "c05-stale")
+		good := "package lib\n\nfunc Hello() string { return \"hello\" }\n"
+		bad := "package lib\n\nfunc Hello() string { return 7 }\n"
+		writeFiles(d, map[string]string{"go.mod": goMod("stale"), "lib/lib.go": good,
+			"magefile.go": "//go:build mage\n\npackage main\n\nimport (\n\t\"fmt\"\n\t\"stale/lib\"\n)\n\nfunc Build() { fmt.Println(\"CALL ok\", lib.Hello()) }\n"})
+		out := filepath.Join(c.Tmp, "c05-stale.bin")
+		funcs := []J{{"name": "Build", "args": []string{}}}
+		step := func(fault string, extraEnv []string, argv ...string) {
+			runEnv := append(append([]string{}, env...), extraEnv...)
+			rr := runCmd(d, runEnv, mageBin, argv...)
+			errClass := "no"
+			if strings.TrimSpace(rr.stderr) != "" {
+				errClass = "yes"
+			}
+			calls := [][]string{}
+			if strings.Contains(rr.stdout, "CALL ok") {
+				calls = append(calls, []string{"<current>.Build"})
+			}
+			in := J{"op": "mage.front", "funcs": funcs, "env": mageEnvPairs(runEnv), "argv": argv, "conv": J{}, "fault": fault, "want": "c05"}
+			c.Emit(in, J{"status": rr.status, "how": howClass(rr), "calls": calls, "stderr": errClass}, "class=stale-binary", "fault="+fault)
+		}
+		step("none", nil, "build")
+		step("none", []string{"MAGEFILE_HASHFAST=1"}, "build")
+		step("none", nil, "-compile", out)
+		os.WriteFile(filepath.Join(d, "lib/lib.go"), []byte(bad), 0o644)
+		step("compile", nil, "build")
+		step("compile", []string{"MAGEFILE_HASHFAST=1"}, "-f", "build")
+		step("compile", nil, "-compile", out)
+		step("compile", []string{"MAGEFILE_HASHFAST=1"}, "-compile", out)
+		os.RemoveAll(d)
+		os.Remove(out)
+	}
 	os.RemoveAll(dir)
 }
